@@ -124,6 +124,7 @@ def extract_skeleton(path=None):
                     if len(out) == before:
                         out.append('other')
     init_depth = [0]
+    rank_cond = [0]
     def visit_body(body, depth):
         for st in body:
             if isinstance(st, (ast.Assign, ast.AugAssign)):
@@ -132,12 +133,16 @@ def extract_skeleton(path=None):
                 if any(is_status_target(t) for t in targets):
                     # the initialisation every rank performs for itself when the status dataset is created
                     # (identical values, before its own `assign`) is not a completion mark of a batch
-                    out.append('other' if init_depth[0] else 'mark')
+                    # ... unless it is guarded by the rank: then SOME rank relies on a write of another one
+                    out.append('other' if (init_depth[0] and not rank_cond[0]) else 'mark')
             elif isinstance(st, ast.Expr):
                 visit_expr_calls(st.value, depth)
             elif isinstance(st, (ast.If,)):
                 visit_expr_calls(st.test, depth)
+                by_rank = any(isinstance(x, ast.Attribute) and x.attr == 'mpi_rank' for x in ast.walk(st.test))
+                rank_cond[0] += by_rank
                 visit_body(st.body, depth); visit_body(st.orelse, depth)
+                rank_cond[0] -= by_rank
             elif isinstance(st, (ast.For, ast.While)):
                 visit_expr_calls(st.iter if isinstance(st, ast.For) else st.test, depth)
                 visit_body(st.body, depth); visit_body(st.orelse, depth)
